@@ -131,29 +131,36 @@ def internal_errors(obs):
 # ---------------------------------------------------------------------------------------------
 class FsmGraphMonitor:
     """Every published change of the Supvisors state of every instance is an edge of FSM_GRAPH; the
-    Master-driven states are entered with a known RUNNING Master, slaves after their Master."""
+    Master-driven states are entered with a known RUNNING Master, slaves after their Master.
+
+    "After its Master has": every entry of a slave into a Master-driven state must be matched by a distinct
+    earlier entry of its Master into that state (entries are counted per instance life; a slave that follows
+    the FIFO publications of its Master may lag behind by several states, but can never be ahead)."""
 
     def __init__(self, n, qualifier=''):
-        # states entered by each instance since it last (re)entered ELECTION or an earlier state
-        self.epoch = [[] for _ in range(n)]
+        self.n = n
+        self.entries = [dict() for _ in range(n)]          # instance -> {state: number of entries}
+        self.followed = [dict() for _ in range(n)]         # slave -> {(master, state): entries made following it}
         # narrows signatures to the configuration class in which they were met (known findings stay narrow)
         self.q = qualifier
 
     def key(self, c):
-        return ('fsm', tuple(tuple(e) for e in self.epoch))
+        return ('fsm', tuple(tuple(sorted(e.items())) for e in self.entries),
+                tuple(tuple(sorted(f.items())) for f in self.followed))
 
     def on_restart(self, idx):
-        self.epoch[idx] = []
+        self.entries[idx] = {}
+        self.followed[idx] = {}
+        for f in self.followed:
+            for k in [k for k in f if k[0] == idx]:
+                del f[k]
 
     def on_fsm_state(self, w, idx, old, new):
         s = w.sups[idx]
         if new not in FSM_GRAPH.get(old, ()):
             w.violations.append({'clause': 'edge-not-in-graph', 'signature': f'C02:edge:{old}->{new}',
                                  'idx': idx, 'old': old, 'new': new})
-        if new in ('OFF', 'SYNCHRONIZATION', 'ELECTION'):
-            self.epoch[idx] = []
-        else:
-            self.epoch[idx].append(new)
+        self.entries[idx][new] = self.entries[idx].get(new, 0) + 1
         if new in MASTER_DRIVEN:
             m = master_of(s)
             if not m:
@@ -167,13 +174,15 @@ class FsmGraphMonitor:
             mi = w.idx_of[m]
             if mi != idx:
                 ms = w.sups[mi]
-                entered = ms.alive and (new in self.epoch[mi])
-                if not entered:
+                used = self.followed[idx].get((mi, new), 0)
+                have = self.entries[mi].get(new, 0) if ms.alive else 0
+                if have <= used:
                     w.violations.append({'clause': 'slave-before-master',
                                          'signature': f'C02:slave-before-master:{old}->{new}{self.q}', 'idx': idx,
                                          'master': mi, 'master_alive': ms.alive,
                                          'master_state': ms.fsm.state.name if ms.alive else None,
-                                         'master_epoch': list(self.epoch[mi])})
+                                         'master_entries': have, 'slave_entries_following_it': used})
+                self.followed[idx][(mi, new)] = used + 1
 
 
 # ---------------------------------------------------------------------------------------------
@@ -286,7 +295,7 @@ class DetectionMonitor:
                 continue
             rec = self.m[(o, p)]
             rec['silent'] += 1
-            if rec['st'] == 'RUNNING' and rec['silent'] > self.I:
+            if rec['st'] in ('RUNNING', 'CHECKED') and rec['silent'] > self.I:
                 # silent = local ticks passed since the last reception, the one just handled included
                 w.violations.append({'clause': 'silent-peer-not-detected', 'signature': 'C07:not-detected',
                                      'observer': o, 'peer': p, 'silent_local_ticks': rec['silent'],
